@@ -150,6 +150,22 @@ def snapshot(ctx) -> None:
                               f"`{stmt_key(a)[:80]}` stores `{show(t)[:60]}` in the history: the live volume array (no copy) - later operations silently rewrite this entry" if snap is False
                               else f"cannot establish that `{show(t)[:60]}` is a copy", where=f.where(a))
     ctx.rep.floor(rule, "values stored in the history", n, 3)
+    # ... and no history entry ever becomes the live array (restoring the volumes from the history needs a copy as well)
+    for m in lab.methods.values():
+        mv = ctx.fv(m)
+        sn = m.params[0] if m.params else None
+        for node in mv.cfg.nodes:
+            if node.kind == "stmt" and isinstance(node.ast, (ast.Assign, ast.AnnAssign)) and node.ast.value is not None:
+                tgt = node.ast.targets[0] if isinstance(node.ast, ast.Assign) else node.ast.target
+                if not attr_of_name(tgt, sn, "_volumes"):
+                    continue
+                t = mv.res.resolve(node.ast.value, node.id)
+                core = t
+                while isinstance(core, ast.Subscript):
+                    core = core.value
+                if attr_of_name(core, sn, "_history") or attr_of_name(core, sn, "history"):
+                    ctx.rep.refuted(rule, f"{m.qualname}/{stmt_key(node.ast)[:50]}", f"`{stmt_key(node.ast)[:70]}` makes a history entry the live volume array (no copy): the next operation "
+                                    "rewrites that earlier entry in place", where=m.where(node.ast))
     vol = lab.methods.get("volumes")
     if vol is not None:
         ctx.rep.touch(vol)
@@ -393,7 +409,11 @@ def lvh_note_once(ctx, dev) -> None:
         if k in memo:
             return memo[k]
         if k in stack:
-            return 0
+            # the text flows back into its own definition (a loop): if a note is appended on the way, it is appended again
+            # on every round
+            i0 = stack.index(k)
+            on_cycle = [fv.cfg.nodes[a_].ast for _v, a_ in stack[i0:] + (k,)]
+            return 1 if any(isinstance(x_, (ast.Assign, ast.AugAssign, ast.AnnAssign)) and getattr(x_, "value", None) is not None and is_note(x_.value) for x_ in on_cycle) else 0
         best = 0
         for d in rd[at].get(var, ()):
             dn = fv.cfg.nodes[d]
@@ -416,9 +436,9 @@ def lvh_note_once(ctx, dev) -> None:
 
     n = 0
     for cs in fv.calls():
-        if not (cs.callee.kind == "func" and cs.callee.func.short == "Labware.condense_log"):
+        if not (isinstance(cs.call.func, ast.Attribute) and cs.call.func.attr == "condense_log"):
             continue
-        la = (fv.bind_args(cs) or {}).get("label")
+        la = next((k_.value for k_ in cs.call.keywords if k_.arg == "label"), cs.call.args[1] if len(cs.call.args) > 1 else None)
         if la is None:
             continue
         n += 1
@@ -427,7 +447,7 @@ def lvh_note_once(ctx, dev) -> None:
         ctx.rep.check(dmax <= 1, rule, f"{cb}/{stmt_key(cs.call)[:50]}", "the condensed entry's label carries at most one large-volume note",
                       f"the label handed to `{stmt_key(cs.call)[:50]}` can have passed through {dmax} statements that each append an `LVH steps` note: the newest history entry "
                       "reads `<label> (n LVH steps) (n LVH steps)`", where=f.where(cs.call))
-    ctx.rep.floor(rule, f"{cb}: condense_log calls with a label", n, 2)
+    ctx.rep.floor(rule, f"{cb}: condense_log calls with a label", n, 1)
 
 
 def slice_zero(ctx) -> None:
